@@ -391,4 +391,9 @@ def explore(ctx):
         ctx.note("%d instances had unusable ascending/descending lists; their degree lookups were not judged" % ctx.counter("degree_skipped_lists_unusable"))
 
 
-KNOWN = {}
+# Predicates for the case that the F05 defect is recorded as a known finding instead of being
+# repaired by fixes_proposed/c05_degree_descending.diff (no entry is proposed: the fix is one line).
+KNOWN = {
+    "degree_descending_raises_typeerror": lambda rec: rec["clause"] == "degree" and rec["site"].endswith(", 'd')")
+    and str(rec["observed"]).startswith("TypeError: 'list_reverseiterator' object is not subscriptable"),
+}
